@@ -111,6 +111,32 @@ fn dual_contents(cap2: usize) -> Vec<Content> {
             out.push((log, vec![], x.iter().copied().take(cap2).collect()));
         }
     }
+    // families that share a normalized part and differ only in the run data, up to run data that uses EVERY entry
+    // (a block hash made of maximal runs leaves no terminator in its run-length block)
+    let runs_of = |n_runs: usize, len: usize| -> Vec<u8> { (0..n_runs).flat_map(|r| vec![(1 + r) as u8; len]).collect() };
+    for &log in &[0u8, 30] {
+        for n in [3usize, 4, 7, 8, 62, 63, 64] {
+            out.push((log, vec![7u8; n], vec![]));
+            out.push((log, vec![], vec![7u8; n.min(cap2)]));
+            out.push((log, vec![7u8; n], vec![7u8; n.min(cap2)]));
+        }
+        for (n_runs, len) in [(16usize, 3usize), (16, 4), (15, 4), (8, 8), (8, 7), (8, 3), (9, 7), (21, 3)] {
+            let x = runs_of(n_runs, len);
+            out.push((log, x.clone(), vec![]));
+            let y: Vec<u8> = runs_of(n_runs.min(cap2 / len.max(1)), len);
+            out.push((log, vec![], y.clone()));
+            out.push((log, x.clone(), y));
+            // one run of the family one symbol shorter / the last run one symbol longer (when it fits)
+            let mut x2 = x.clone();
+            x2.remove(0);
+            out.push((log, x2, vec![]));
+            if x.len() < 64 {
+                let mut x3 = x.clone();
+                x3.push(*x.last().unwrap());
+                out.push((log, x3, vec![]));
+            }
+        }
+    }
     out.sort();
     out.dedup();
     out
